@@ -35,6 +35,7 @@ class Config:
     p_empty: float = 0.15  # probability that a frame has no detection
     npint: bool = False  # ids / times stored and passed as numpy integers (as a GUI does)
     rename: tuple = ()  # (old_key, new_key) pairs of annotator features renamed after build
+    seg_dtype: str = "int64"  # dtype of the label array (napari layers use all of these)
 
     def to_json(self):
         d = asdict(self)
@@ -102,7 +103,8 @@ def random_config(rng: random.Random, *, seg=None, ndim=None, allow3d_shape=True
         pos_mode=pos_mode,
         build=build,
         extra=tuple(extra),
-        T=rng.randint(3, 7),
+        T=rng.choice([1, 2, 3, 4, 5, 6, 7, 3, 4, 5, 6, 7]),
+        seg_dtype=rng.choice(["int64", "int64", "int32", "uint16", "uint32", "uint64"]),
         max_per_frame=rng.choice([2, 3, 3, 4]),
         id_kind=rng.choice(["contig", "sparse"] if sg else ["contig", "sparse", "zero"]),
         skip_prob=rng.choice([0.0, 0.2, 0.2, 0.5]),
@@ -339,8 +341,8 @@ def build_tracks(cfg: Config):
     rng = random.Random(cfg.seed)
     forest = random_forest(rng, cfg.T, cfg.max_per_frame, cfg.id_kind, cfg.skip_prob,
                            p_empty=cfg.p_empty)
-    seg = make_segmentation(rng, forest, cfg.frame_shape(), thick=cfg.thick) \
-        if cfg.seg else None
+    seg = make_segmentation(rng, forest, cfg.frame_shape(), thick=cfg.thick,
+                            dtype=np.dtype(cfg.seg_dtype)) if cfg.seg else None
     scale = cfg.scale_list()
     axes = ["z", "y", "x"] if cfg.ndim == 4 else ["y", "x"]
     build = cfg.build
